@@ -153,6 +153,9 @@ class FlowWorld:
             elif name == "SubResume":
                 self.want_pause.discard(arg)
                 ib.subchannel_resumeProducing(self.sc[arg])
+            elif name == "SubStop":
+                self.want_pause.discard(arg)
+                ib.subchannel_stopProducing(self.sc[arg])
             elif name == "SubClosed":
                 self.want_pause.discard(arg)
                 self.open.discard(arg)
@@ -374,8 +377,14 @@ class WalkWorld(FlowWorld):
                 acts.append(("Unregister", p))
             if p in self.open:
                 acts.append(("SubResume", p) if p in self.want_pause else ("SubPause", p))
-                if self.rng.random() < 0.3:
+                r = self.rng.random()
+                if r < 0.3:
                     acts.append(("SubClosed", p))
+                elif r < 0.5:
+                    # an application that repeats itself, or says stop: pausing what is paused, resuming what is not
+                    acts.append(("SubPause", p) if p in self.want_pause else ("SubResume", p))
+                elif r < 0.65:
+                    acts.append(("SubStop", p))
         if len(ob._outbound_queue) < self.max_queued:
             acts.append(("AppRecord", None))
         if not inside:
